@@ -45,7 +45,17 @@ pub fn handle(parts: &[&str], out: &mut impl Write) {
             "mapper" if parts.len() == 7 => {
                 let file = AsepriteFile::read(Cursor::new(crate::unhex(parts[3])?)).ok()?;
                 let pal = file.palette()?;
-                let mapper = PaletteMapper::new(pal, options(parts[4], parts[5])?);
+                // a failure index written `f1>f2`: a first mapper with failure index f1 is built on the same
+                // palette, used once and dropped; the answers come from a second mapper with f2
+                let failure = match parts[4].split_once('>') {
+                    Some((f1, f2)) => {
+                        let first = PaletteMapper::new(pal, options(f1, parts[5])?);
+                        let _ = first.lookup(0, 0, 0, 255);
+                        f2
+                    }
+                    None => parts[4],
+                };
+                let mapper = PaletteMapper::new(pal, options(failure, parts[5])?);
                 let q = crate::unhex(parts[6])?;
                 let res: Vec<String> = q
                     .chunks_exact(4)
